@@ -48,7 +48,8 @@ ASSUMPTIONS = [
     "an optional proper prefix of a code; bytes that start no code are modelled and tie-checked but outside the spec",
     "ToUnicode grammar: bfchar/bfrange sections of hex strings; the (space, then U+00A0) redefinition quirk of "
     "FileUnicodeMap.add_cid2unichr and destination strings whose last <=4 bytes overflow 2^32 are outside the domain",
-    "W/W2 grammar: any interleaving of `c [w ...]` and `c1 c2 w` with integer cids; malformed arrays are tie-checked only",
+    "W/W2 grammar: any interleaving of `c [w ...]` and `c1 c2 w` with integer cids (the part of a range outside "
+    "0..65535 is void, in the spec as in the code since 471ca31); malformed arrays are tie-checked only",
     "vertical documents are generated with Tz = 100 and Tc = 0 (text-state arithmetic belongs to C05)",
 ]
 STATEMENT_STATUS: Dict[str, str] = {
@@ -218,7 +219,7 @@ def spec_widths(entries) -> Dict[int, F]:
             for i, w in enumerate(e[2]):
                 m[e[1] + i] = F(w)
         else:
-            for c in range(e[1], e[2] + 1):
+            for c in range(max(e[1], 0), min(e[2], 65535) + 1):     # CIDs are 0..65535
                 m[c] = F(e[3])
     return m
 
@@ -231,7 +232,7 @@ def spec_widths2(entries) -> Dict[int, Tuple[F, F, F]]:
             for i, t in enumerate(e[2]):
                 m[e[1] + i] = tuple(F(x) for x in t)
         else:
-            for c in range(e[1], e[2] + 1):
+            for c in range(max(e[1], 0), min(e[2], 65535) + 1):
                 m[c] = tuple(F(x) for x in e[3])
     return m
 
@@ -530,7 +531,8 @@ def gen_w_entries(rng, n=None):
         if rng.random() < 0.5:
             ents.append(("L", c, [gen_num(rng) for _ in range(rng.randint(0, 4))]))
         else:
-            ents.append(("R", c, c + rng.choice([0, 1, 2, 7, 30, -1]), gen_num(rng)))
+            c1 = c if rng.random() > 0.06 else -rng.randint(1, 5)      # below 0 / above 65535: clamped part is void
+            ents.append(("R", c1, c + rng.choice([0, 1, 2, 7, 30, -1]), gen_num(rng)))
     return ents
 
 
@@ -874,7 +876,7 @@ def run_tounicode(ctx: C.Ctx) -> None:
         [("s", b"\x00\x01"), ("s", b"\x00\x03"), ("a", [("s", b"\x00A"), ("o",)]), ("k", "endbfrange")],  # PDFTypeError
         [("s", b"\x00\x01"), ("s", b"\x00\x09"), ("s", b"\xff\xff\xff\xfe"), ("k", "endbfrange")],       # struct.error
         [("s", b"\x00\x01"), ("s", b"\x00\x02"), ("s", b""), ("k", "endbfrange")],                       # [-0:] quirk
-        [("k", "def")], [("i", 1), ("k", "def")], [("k", "usecmap")],                                       # ValueError
+        [("k", "def")], [("i", 1), ("k", "def")], [("k", "usecmap")],                  # too few operands: tolerated
         [("s", b"\x00\x41"), ("s", b"\x00\x44"), ("i", 7), ("k", "endcidrange")],
         [("s", b"\x01\x00\x00\x00\x41"), ("s", b"\x01\x00\x00\x00\x43"), ("i", -2), ("k", "endcidrange")],
         [("s", b"\x01\x00\x00\x00\x41"), ("s", b"\x02\x00\x00\x00\x43"), ("i", 0), ("k", "endcidrange")],  # prefix differs
@@ -1013,7 +1015,7 @@ def run_fontwidth(ctx: C.Ctx) -> None:
                                "a font", exc_line(e), {"group": "fontwidth", "exc": type(e).__name__}))
             continue
         sw = spec_widths2(ents) if vertical else spec_widths(ents)
-        cids = [en[1] for en in ents] + [en[1] + 1 for en in ents] + [0, rng.randint(0, 400)]
+        cids = [c for c in [en[1] for en in ents] + [en[1] + 1 for en in ents] if c >= 0] + [0, rng.randint(0, 400)]
         for cid in cids[:6]:
             got = font.char_width(cid) * 1000
             if vertical:
